@@ -20,7 +20,7 @@ from ..core import Violation
 ID = "C16"
 LEVEL = "exploration"
 RULE = (
-    "Hypothesis-generated cases: database size n (0, 1, or log-uniform up to the tier's bound), auto_index on/off, then 3-10 steps drawn from insert (single), insert_multiple (1-4 points), in-order or "
+    "Hypothesis-generated cases: database size n (0, 1, or log-uniform up to the tier's bound), auto_index on/off, flush_on_insert on/off (off: byte oracle on the whole file after close), then 3-10 steps drawn from insert (single), insert_multiple (1-4 points), in-order or "
     "out-of-order times, compact or default prefixes, interleaved with early-stopping reads (get/contains matching row 0), counts, len and reindex; each insert is executed on the big database and on an empty twin "
     "under the I/O recorder. Non-trivial = an insert that directly follows a read which stopped mid-file on a database of >= 100 rows, or an out-of-order insert on a database of >= 100 rows; distinct by (n, step list)."
 )
@@ -68,7 +68,7 @@ def cases(draw, nmax):
             steps.append([k, draw(st.lists(gen.points(), min_size=1, max_size=4)), draw(st.booleans()), draw(st.booleans())])
         else:
             steps.append([k])
-    return {"n": n, "auto_index": draw(st.booleans()), "steps": steps}
+    return {"n": n, "auto_index": draw(st.booleans()), "steps": steps, "flush": draw(st.sampled_from([True, True, False]))}
 
 
 def run_case(case, ctx, acc):
@@ -89,7 +89,10 @@ def run_case(case, ctx, acc):
         for name in ("big", "twin"):
             w = worlds[name]
             with iolayer.installed(w):
-                db = TinyFlux(paths[name], auto_index=case["auto_index"])
+                flush = case.get("flush", True)
+                db = TinyFlux(paths[name], auto_index=case["auto_index"], flush_on_insert=flush)
+                appended = b""
+                initial = w.disk()
                 try:
                     latest = gen.T0 + timedelta(days=500)
                     early = False
@@ -118,12 +121,24 @@ def run_case(case, ctx, acc):
                             after = w.disk()
                             ev = w.events[e0:]
                             acc.ev()
+                            exp_bytes = encoded([dict(p, time=model.norm_time(p["time"])) for p in pts], compact)
+                            appended += exp_bytes
+                            if not flush:
+                                # rows may still sit in the write buffer: the byte-level oracle is applied to the whole file after close()
+                                bad = [e for e in ev if e[0] in FORBIDDEN or e[0].startswith("open") or e[0].startswith("copy")]
+                                if bad:
+                                    raise Violation("reads-or-rewrites", case, "[%s n=%d flush_on_insert=False] step %d %s performed %s" % (name, case["n"], si, k, bad[:6]))
+                                sigs.setdefault(si, {})[name] = ev
+                                if name == "big" and case["n"] >= 100 and (early or ooo):
+                                    info["nontrivial"] = True
+                                    acc.cls("noflush_insert_after_early_read" if early else "noflush_insert_out_of_order_on_big")
+                                early = False
+                                continue
                             if not after.startswith(before):
                                 raise Violation("not-append-only", case, "[%s n=%d] step %d %s: the previous file content (%d bytes) is not a prefix of the new content (%d bytes)" % (name, case["n"], si, k, len(before), len(after)))
                             bad = [e for e in ev if e[0] in FORBIDDEN or e[0].startswith("open") or e[0].startswith("copy")]
                             if bad:
                                 raise Violation("reads-or-rewrites", case, "[%s n=%d] step %d %s performed %s" % (name, case["n"], si, k, bad[:6]))
-                            exp_bytes = encoded([dict(p, time=model.norm_time(p["time"])) for p in pts], compact)
                             if after[len(before):] != exp_bytes:
                                 raise Violation("appended-bytes", case, "[%s n=%d] step %d %s appended %r, the encoded rows are %r" % (name, case["n"], si, k, after[len(before):][:200], exp_bytes[:200]))
                             written = "".join(t for (_i, _r, t) in w.written[w0:])
@@ -152,6 +167,11 @@ def run_case(case, ctx, acc):
                             early = False
                 finally:
                     db.close()
+                final = w.disk()
+                if final != initial + appended:
+                    n_common = next((i for i, (x, y) in enumerate(zip(final, initial + appended)) if x != y), min(len(final), len(initial) + len(appended)))
+                    raise Violation("not-append-only", case, "[%s n=%d flush_on_insert=%s] after close() the file (%d bytes) is not the initial content (%d bytes) followed by the encoded inserted rows (%d bytes); first difference at offset %d" % (name, case["n"], flush, len(final), len(initial), len(appended), n_common))
+                acc.ev()
             if w.blind_spots:
                 raise core.HarnessError("I/O that bypassed the proxies: %r" % (w.blind_spots[:3],))
         for si, by in sigs.items():
